@@ -6,6 +6,7 @@
 
 mod util;
 mod c18;
+mod c12;
 
 fn main() {
     // silence the default panic message: panics are observations here
@@ -18,6 +19,7 @@ fn main() {
     let rest = &args[2..];
     match args[1].as_str() {
         "c18" => c18::run(rest),
+        "c12" => c12::run(rest),
         other => {
             eprintln!("unknown subcommand {other}");
             std::process::exit(2);
